@@ -331,6 +331,48 @@ def oracle(case):
 			return {'what': 'output %d: the body is not a %s stream: %s' % (i, coding, e), 'wire': w[:400].hex(), 'case': describe(case), 'finding': None}
 		if got != want:
 			return {'what': 'output %d (%s framing): body decodes to %d octets, content has %d' % (i, msg['framing'], len(got), len(want)), 'wire': w[:400].hex(), 'case': describe(case), 'finding': None}
+	# one Body object (the application's representation) handed to the constructors of two messages: what is done with the second
+	# message (a 304, an answer to HEAD, a chunked answer) does not change what the first one composes
+	if kind == 'response' and want and source in ('bytes', 'list', 'bytesio') and 200 <= status < 300 and status not in (204, 205) and req_method != 'HEAD' and not coding and not fields:
+		try:
+			from httoop import Request, Response
+			from httoop.messages.body import Body
+			from httoop.semantic.response import ComposedResponse
+			rep = Body(list(pieces) if source == 'list' else want)
+			get = Request('GET', '/r')
+			r1 = Response(status, body=rep)
+			c1 = ComposedResponse(r1, get)
+			c1.prepare()
+			first = b''.join(c1)
+			for st2, m2, ch2 in ((304, 'GET', None), (200, 'HEAD', None), (200, 'GET', True)):
+				r2 = Response(st2, body=rep)
+				c2 = ComposedResponse(r2, Request(m2, '/r'))
+				if ch2:
+					c2.chunked = True
+				c2.prepare()
+				b''.join(c2)
+				again = b''.join(c1)
+				if cu.undate(again) != cu.undate(first):
+					return {'what': 'a Body object was handed to two responses; after the second one (%d, answer to %s%s) was prepared the first composes differently' % (st2, m2, ', chunked' if ch2 else ''), 'a': first[:300].hex(), 'b': again[:300].hex(), 'case': describe(case), 'finding': None}
+			msg1 = cu.read_message(first, 'response', 'GET')
+			if cu.decode_content(msg1['body'], None) != want:
+				return {'what': 'a response built with Response(status, body=Body(...)) does not carry the content', 'wire': first[:300].hex(), 'case': describe(case), 'finding': None}
+			# the message object used for a second exchange, the new representation handed over as a Body object made of pieces
+			for newrep in ([b'the second representation, ', b'which is considerably longer than the first one ' * 3], [b'x'], (b'ab', b'', b'c')):
+				r3 = Response(status, body=Body(list(pieces) if source == 'list' else [want]))
+				c3 = ComposedResponse(r3, get)
+				c3.prepare()
+				b''.join(c3)
+				r3.body = Body(newrep)
+				c3.prepare()
+				third = b''.join(c3)
+				msg3 = cu.read_message(third, 'response', 'GET')
+				if msg3['rest'] or cu.decode_content(msg3['body'], None) != b''.join(newrep):
+					return {'what': 'a response used for a second exchange with a new Body object of pieces: %d octets of content, the message carries %d (%s framing, %d octets after it)' % (len(b''.join(newrep)), len(msg3['body']), msg3['framing'], len(msg3['rest'])), 'wire': third[:300].hex(), 'case': describe(case), 'finding': None}
+		except cu.Malformed as e:
+			return {'what': 'Body object shared by two responses: the first is not one well-formed message: %s' % e, 'case': describe(case), 'finding': None}
+		except Exception as e:
+			return {'what': 'Body object shared by two responses raised %s: %s' % (exc_name(e), e), 'case': describe(case), 'finding': None}
 	base = cu.undate(outs[0])
 	if any(op in SWITCHES for op in ops):
 		return None          # the caller changed the framing in between: the outputs are judged one by one only
